@@ -104,6 +104,14 @@ theorem loaded_layout (cat : Layout.Catalogue) (rows : List Layout.StationRow) {
     obtain ⟨r, h1, h2⟩ := hb b hb'
     rw [h1, h2]; rfl
 
+/-- **installed = listed**: the loaded stations have, of every plug type, exactly the sum of the
+    counts of the rows of the stations file that name that station and type -/
+theorem loaded_installed (cat : Layout.Catalogue) (rows : List Layout.StationRow) {loaded : List Station}
+    (hl : Layout.loadStations cat rows [] = some loaded) (sid : StationId) (c : ChargerId) :
+    Layout.plugTotal loaded sid c = Layout.installed rows sid c := by
+  have := Layout.loadStations_installed rows hl sid c
+  simpa [Layout.plugTotal, lookup] using this
+
 /-- not vacuous: one station on three rows, one plug type listed twice -/
 example : (Layout.loadStations (fun _ => some (true, 50))
     [⟨0, ⟨0, 0⟩, 1, 2, true⟩, ⟨0, ⟨0, 0⟩, 2, 1, false⟩, ⟨0, ⟨0, 0⟩, 1, 3, false⟩] []).map
